@@ -1,6 +1,6 @@
 (* C11 proofs, part 2: the civil date is the Gregorian walker's, weekday, month / year_month /
    weekday modular arithmetic. *)
-From Tetl Require Import Lib.Base C11.Model C11.Spec C11.Core C11.SweepA C11.SweepC C11.Proofs.
+From Tetl Require Import Lib.Base C11.Model C11.Spec C11.Core C11.Era C11.Proofs.
 From Coq Require Import ZifyBool.
 Local Open Scope Z_scope.
 Ltac Zify.zify_post_hook ::= Z.to_euclidean_division_equations.
